@@ -47,6 +47,7 @@ ASSUMPTIONS = [
     'the phase-lock sentence is checked after vle(...) calls only (the statement says "after a vapour-liquid calculation"), for '
     'the material that is in the g / l phases the calculation pools',
     'methods other than the defaults (VLE fixed-point, LLE pseudo equilibrium) are not explored',
+    'the interning caches of thermosteam.equilibrium (BubblePoint/DewPoint/activity-coefficient objects) are cleared before every execution',
     'entropy-specified calls are not enumerated for mixtures containing a chemical whose entropy cannot be evaluated / is not the integral of Cn/T '
     '(vc.entropy_model_ok: Tetradecanol and unlocked Glucose raise TypeError because Chemical.Sfus is None -- a C07 matter, _chemical.py:1542)',
 ]
@@ -57,6 +58,8 @@ TOLERANCES = {'conservation_rtol_per_chemical': 1e-9, 'conservation_atol_rel_tot
 # oracle
 
 def oracle(system, st, action, before, obs):
+    st.extra['last_kind'] = action[0]
+    if action[0] in ('refill', 'pkg'): return       # the user replaces the material; nothing is claimed about that step
     s = st.s
     after = vc.dense_by_phase(s)
     tb = sum(before['flows'].values()); ta = sum(after.values())
@@ -234,14 +237,26 @@ def his_enum_configs(system, tier, seed):
     k = seed % len(c)
     return c[k:] + c[:k]
 
+# 'refill' = the user empties the stream and fills it with another subset of the package (same number of volatile chemicals /
+# another number); the cached VLE / LLE / SLE objects stay on the stream.  Never first, never twice in a row.
+HIS_REFILLS = {
+    'VLE': [(('Ethanol', 'Propanol'), (1., 1.)), (('Water', 'Ethanol', 'Propanol', 'N2'), (1., 1., 1., 0.5)), (('Water', 'Propanol', 'Glucose'), (1., 2., 0.5))],
+    'HIS': [(('Ethanol', 'Octanol'), (1., 1.)), (('Water', 'Ethanol', 'Octanol', 'N2', 'Glucose'), (1., 1., 1., 0.5, 0.5)), (('Water', 'Octanol', 'Tetradecanol'), (2., 1., 0.5))],
+}
+
 def _his_actions(n_q, n_t):
     def f(system, st):
         n = n_q if system.tier == 'quick' else n_t
         out = []
+        if st.extra.get('last_kind') not in (None, 'refill'):
+            nr = 2 if system.tier == 'quick' else 3
+            out += [('refill', c, fl) for c, fl in HIS_REFILLS[st.config[0]][:nr]]
         IDs = st.s.chemicals.IDs
         for a in HIS_CALLS[:n]:
             if a[0] == 'sle' and a[2] not in IDs: continue
-            if a[0] == 'vle' and 'S' in a[1] and not vc.entropy_ok_for(st.config[0], st.config[1]): continue
+            if a[0] == 'vle' and 'S' in a[1]:
+                present = [IDs[i] for i, x in enumerate(vc.totals(st.s)) if x]
+                if not vc.entropy_ok_for(st.config[0], present): continue
             if a[0] == 'lle' and a[1] == 'Ttop' and a[3] not in IDs: continue
             if a[0] == 'vle' and a[1][1] in 'xy':
                 vol, light, heavy, tot = vc.classify(st)
@@ -274,7 +289,7 @@ SYSTEMS = [
     FlashSystem('c03.sle.hist', sle_his_configs, sle_his_actions, oracle, 2, 3,
                 describe=dict(alphabet='all 26 sle calls (2 solutes x (5 T + 2 T x 4 solubilities))', configurations='SLE_HIS_CONFIGS')),
     FlashSystem('c03.hist2', his_enum_configs, _his_actions(12, 30), oracle, 2, 2,
-                describe=dict(alphabet='first 12 (quick) / all 30 (thorough) calls of HIS_CALLS', configurations='HIS_CONFIGS')),
+                describe=dict(alphabet='first 12 (quick) / all 30 (thorough) calls of HIS_CALLS + 2 / 3 refills with another chemical subset', configurations='HIS_CONFIGS')),
     FlashSystem('c03.hist3', his_enum_configs, _his_actions(5, 8), oracle, 3, 3,
-                describe=dict(alphabet='first 5 (quick) / first 8 (thorough) calls of HIS_CALLS', configurations='HIS_CONFIGS')),
+                describe=dict(alphabet='first 5 (quick) / first 8 (thorough) calls of HIS_CALLS + 2 / 3 refills with another chemical subset', configurations='HIS_CONFIGS')),
 ]
